@@ -10,7 +10,7 @@ package main
 //	    sys.ParseConstraint(r): ("err") or ("ok" Match(v)...).
 //	client_history (variant table ops) -> (observation...)   variant and table are for the model only
 //	sortv          (table sys versions perm cfg) -> (version...)       table and cfg are for the model only
-//	matchreq       (table sys requirement versions perm cfg) -> (version...)
+//	matchreq       (table sys requirement versions perm cfg) -> ((version...) (the caller's slice afterwards))
 //
 // A version record is (string vtype attrpairs); printed as (string vtype attrdump).
 
@@ -101,8 +101,10 @@ func clMkKey(sys, vtype int64, name, ver string) resolve.VersionKey {
 	}
 }
 
+// (version vtype attrdump system name): the whole key, so that a record returned under a
+// wrong package key is seen.
 func clDumpVersion(v resolve.Version) sx.V {
-	return sx.L(sx.B(v.Version), sx.Int(int(v.VersionType)), dumpVer(v.AttrSet))
+	return sx.L(sx.B(v.Version), sx.Int(int(v.VersionType)), dumpVer(v.AttrSet), sx.Int(int(v.System)), sx.B(v.Name))
 }
 
 func clDumpVersions(vs []resolve.Version) sx.V {
@@ -132,10 +134,24 @@ func clLookupResult(err error, ok func() sx.V) sx.V {
 	return sx.L(sx.Sym("ok"), ok())
 }
 
+func clMkDeps(l sx.V) []resolve.RequirementVersion {
+	var deps []resolve.RequirementVersion
+	for _, d := range l.List() {
+		deps = append(deps, resolve.RequirementVersion{
+			VersionKey: clMkKey(d.Nth(0).Int(), d.Nth(2).Int(), d.Nth(1).Str(), d.Nth(3).Str()),
+			Type:       buildDep(d.Nth(4)),
+		})
+	}
+	return deps
+}
+
 // ops: (0 sys name vtype ver attrpairs ((sys name vtype req typepairs)...))  AddVersion
 //
 //	(1 sys name vtype ver) Version   (2 sys name) Versions
 //	(3 sys name vtype ver) Requirements   (4 sys name vtype req) MatchingVersions
+//	(5 flag sys name vtype ver1 attrs1 n ver2 attrs2 m deps)  a caller that reuses one buffer:
+//	    buf := deps; AddVersion(v1, buf[:n]); AddVersion(v2, buf[:m]); observes buf afterwards
+//	    (flag is for the model only)
 func clClientHistory(arg sx.V) sx.V {
 	ctx := context.Background()
 	lc := resolve.NewLocalClient()
@@ -145,14 +161,14 @@ func clClientHistory(arg sx.V) sx.V {
 		switch o[0].Int() {
 		case 0:
 			v := clMkVersion(o[1].Int(), o[3].Int(), o[2].Str(), o[4].Str(), o[5])
-			var deps []resolve.RequirementVersion
-			for _, d := range o[6].List() {
-				deps = append(deps, resolve.RequirementVersion{
-					VersionKey: clMkKey(d.Nth(0).Int(), d.Nth(2).Int(), d.Nth(1).Str(), d.Nth(3).Str()),
-					Type:       buildDep(d.Nth(4)),
-				})
-			}
-			lc.AddVersion(v, deps)
+			lc.AddVersion(v, clMkDeps(o[6]))
+		case 5:
+			buf := clMkDeps(o[11])
+			v1 := clMkVersion(o[2].Int(), o[4].Int(), o[3].Str(), o[5].Str(), o[6])
+			v2 := clMkVersion(o[2].Int(), o[4].Int(), o[3].Str(), o[8].Str(), o[9])
+			lc.AddVersion(v1, buf[:o[7].Int()])
+			lc.AddVersion(v2, buf[:o[10].Int()])
+			out = append(out, sx.L(sx.Sym("ok"), clDumpReqs(buf)))
 		case 1:
 			v, err := lc.Version(ctx, clMkKey(o[1].Int(), o[3].Int(), o[2].Str(), o[4].Str()))
 			out = append(out, clLookupResult(err, func() sx.V { return clDumpVersion(v) }))
@@ -196,6 +212,7 @@ func init() {
 		sys := a.Nth(1).Int()
 		vs := clVersionList(sys, a.Nth(3), a.Nth(4))
 		ms := resolve.MatchRequirement(clMkKey(sys, int64(resolve.Requirement), "p", a.Nth(2).Str()), vs)
-		return clDumpVersions(ms)
+		// the result, and the caller's slice after the call (the code sorts a copy)
+		return sx.L(clDumpVersions(ms), clDumpVersions(vs))
 	})
 }
